@@ -5,6 +5,23 @@ ROOT = os.path.dirname(os.path.dirname(os.path.abspath(__file__)))
 ALL = ["C%02d" % i for i in range(1, 21)]
 
 CHECKS = {
+ "C14": dict(
+    category="model_checking",
+    text="DecoderApi.tla models lha_decoder_read line by line (clamp, copy/refill loop, failure latch, CRC, position, "
+         "progress callbacks) in two grains; TLC checks exhaustively over all inner chunk scripts (total <= 6, including an "
+         "inner decoder that returns 0 early), declared lengths 0..7 and read schedules with the monitor attached anywhere, "
+         "that what is handed out is always a prefix of the source cut at the declared length, reached by any sufficient "
+         "request, that length/CRC/callback sequence are faithful, that the inner decoder is never called after returning 0, "
+         "that the fine and atomic grains agree, and (liveness) that every read terminates. The real lha_decoder_* is bound by "
+         "trace validation: a synthetic decoder type plays the model's scripts, and all 14 real methods run behind a "
+         "wrapper type on valid, bit-flipped and random streams with six declared lengths and many read schedules; every "
+         "call's result, bytes, inner-call count, callbacks, CRC and length must be the model's, and every schedule must "
+         "reproduce the bytes of the single maximal read.",
+    design_ref="DESIGN.md section 5, C14",
+    note="Trusted: TLC/SANY/CommunityModules, clang+ASan, the wrapper type's view of the inner read(). Request sizes near "
+         "SIZE_MAX are outside the statement.",
+    technique="TLA+ spec (DecoderApi) model-checked with TLC incl. liveness; trace validation of lha_decoder_* executions "
+              "(synthetic and real decoder types) against the spec's atomic read action"),
  "C17": dict(
     category="model_checking",
     text="TLC checks, for all 2^24 (state, byte) pairs, that the byte-table form equals the bitwise CRC-16/ARC "
